@@ -161,6 +161,8 @@ class Hist:
         self.prev_show = {}
         self.last_layout = None
         self.faulted = {}      # name -> a SHOW failed since the last healthy one
+        self.pending_fail = {}
+        self.notes_info = []
 
     # -- clocks
     def pin(self):
@@ -293,14 +295,30 @@ class Hist:
 
     def settled_frames(self, name):
         """frames after a failed SHOW: the aborted delta task can still finish an append it had begun"""
-        prev = self.frames(name)
-        for _ in range(20):
-            self.eng.cmd("!sleep 40")
+        prev, stable = self.frames(name), 0
+        for _ in range(40):
+            self.eng.cmd("!sleep 60")
             cur = self.frames(name)
-            if cur == prev:
+            stable = stable + 1 if cur == prev else 0
+            if stable >= 4:
                 return cur
             prev = cur
         return prev
+
+    def amend_failed(self, name):
+        """an append the aborted task had begun can land after the failed SHOW was observed (fsync under load): what the
+        failed SHOW left is what the store holds when the next command on that materialisation starts"""
+        p = self.pending_fail.pop(name, None)
+        if not p:
+            return
+        ti, oi, before, shards, seen = p
+        after = self.frames(name)
+        if after != seen:
+            new = after[len(before):]
+            self.tokens[ti] = f"F:{name}:{self.choice(shards, new)}"
+            mark = after[-1][0] if after else "0.0"
+            self.obs[oi] = f"F new={self.frames_str(new)} mark={mark} cat={self.catalog_mark(name)}"
+            self.notes_info.append(f"failed SHOW m{name}: an append landed after the observation")
 
     def choice(self, shards, new_frames):
         """source index of every new frame: a source that holds all of the frame's keys (an event can sit in the
@@ -334,6 +352,7 @@ class Hist:
 
     def do_remember(self, name, q, shards):
         line = f"REMEMBER {q_text(q, self.base)} AS m{name}"
+        self.amend_failed(name)
         before = self.frames(name)
         r = self.eng.cmd(line)
         out = r.get("out", "")
@@ -359,6 +378,7 @@ class Hist:
             self.shows.append({"kind": "remember-error", "name": name, "msg": out[:200]})
 
     def do_show(self, name, shards, fail=None, abort=None):
+        self.amend_failed(name)
         before = self.frames(name)
         if fail is not None:
             self.eng.cmd(f"!failwrite {fail}")
@@ -389,6 +409,7 @@ class Hist:
                 return
             mark = after[-1][0] if after else "0.0"
             self.obs.append(f"F new={self.frames_str(new)} mark={mark} cat={self.catalog_mark(name)}")
+            self.pending_fail[name] = (len(self.tokens) - 1, len(self.obs) - 1, before, shards, after)
             self.shows.append({"kind": "show-failed", "name": name, "appended": len(new), "bytes": fail, "crashed": crashed,
                                "delivered": len(raw.get("out", ""))})
             return
@@ -480,8 +501,10 @@ class Hist:
                     for i in range(op[1]):
                         self.do_store(0, i % 4, 0, wait=False)
                     self.quiesce()
+            for name in list(self.pending_fail):
+                self.amend_failed(name)
             return {"line": "mat_run " + " ".join(self.tokens), "obs": " | ".join(self.obs), "shows": self.shows,
-                    "notes": self.notes}
+                    "notes": self.notes, "info": self.notes_info}
         finally:
             self.eng.destroy()
 
